@@ -352,8 +352,10 @@ def decodeCompressedLoop (T : Tables) (edition : Nat) (s4max : Nat) (g : Range) 
                         | _ => .error .null
                     | [] => .error .null
                 match (List.zip st.dones (List.zip col3 tails)).foldl step (.ok ([], [], false)) with
+                -- `return dts` with the subsets allocated but never filled (`subset->data == NULL`):
+                -- an unfilled subset is the empty list
                 | .error .null => .ok { st with r := r2, invalid := true, early := true, ddos := ddos2,
-                                                dones := List.zipWith (fun n d => n :: d) col3 st.dones, todos := tails.map (fun _ => []) }
+                                                dones := st.dones.map (fun _ => []), todos := tails.map (fun _ => []) }
                 | .error e => .error e
                 | .ok (ds, ts, inv) =>
                   decodeCompressedLoop T edition s4max g f
